@@ -356,6 +356,36 @@ func EncodeAll(c Codec, rs []vegeta.Result) (data []byte, ends []int, err error)
 	return buf.Bytes(), ends, nil
 }
 
+// EncodeAllRecycled encodes the same sequence the way a caller that recycles its
+// buffers does: one Result value, one header map and one body buffer, all
+// overwritten in place between two Encode calls. An encoder that keeps a
+// reference to anything it was handed writes something else than EncodeAll.
+func EncodeAllRecycled(c Codec, rs []vegeta.Result) (data []byte, err error) {
+	var buf bytes.Buffer
+	enc := c.Enc(&buf)
+	var r vegeta.Result
+	hdr := http.Header{}
+	var body []byte
+	for i := range rs {
+		for k := range hdr {
+			delete(hdr, k)
+		}
+		for k, v := range rs[i].Headers {
+			hdr[k] = append([]string(nil), v...)
+		}
+		body = append(body[:0], rs[i].Body...)
+		r = rs[i]
+		r.Headers, r.Body = hdr, body
+		if rs[i].Body == nil {
+			r.Body = nil
+		}
+		if err = enc.Encode(&r); err != nil {
+			return nil, fmt.Errorf("%s encode record %d: %w", c.Name, i, err)
+		}
+	}
+	return buf.Bytes(), nil
+}
+
 // DecodeAll drains a decoder; it returns the records decoded before the first
 // error and that error (io.EOF for a clean end). limit bounds the number of
 // successful decodes (protection against a decoder that never ends).
